@@ -123,7 +123,11 @@ def unpack(data: bytes, size: int = None, byteorder="little", signed=False) -> i
 
 def pack(n: int, size: int = None, byteorder="little", signed=False) -> bytes:
     if size is None:
-        size = (n.bit_length() + 7) // 8
+        if signed:
+            # leave room for the sign bit, otherwise e.g. 128 or -129 do not fit the chosen width
+            size = ((n if n >= 0 else ~n).bit_length() + 8) // 8
+        else:
+            size = (n.bit_length() + 7) // 8
     return n.to_bytes(size, byteorder=byteorder, signed=signed)
 
 
